@@ -616,7 +616,7 @@ func init() {
 	}})
 	histSuite("c02", "mon_C02", "authorization requests (GET and POST; plain and pushed) over redirect_uri variants (exact, prefix/suffix/case/port/scheme/userinfo/percent-encoding variations, pushed-unregistered URIs replayed in plain requests, outer/inner disagreement, absent) crossed with error-producing parameters, response modes and policy outcomes; sequences with pushed unregistered redirect URIs followed by ordinary requests",
 		140, 5000, 34, map[string]bool{"par": true, "implicit": true},
-		map[string]int{"authorize": 34, "callback": 16, "par": 16, "code": 6, "refresh": 1, "cc": 1, "query": 3, "tick": 5, "bc": 1, "poll": 1, "notify": 1}, 45, scenarioRedirectMatrix)
+		map[string]int{"authorize": 34, "callback": 16, "par": 16, "code": 6, "refresh": 1, "cc": 1, "query": 3, "tick": 5, "bc": 1, "poll": 1, "notify": 1}, 45, scenarioRedirectMatrix, scenarioPushedUnregisteredRedirect)
 	histSuite("c03", "mon_C03x", "scenario matrix: every PKCE configuration (off, each method alone, both with either default, required) x challenge forms (method named S256 / plain, method left out with the challenge made for S256 / for plain, none) x verifiers (pre-image, the challenge string itself, wrong, too short, absent), direct and through a pushed request; then interleaved authorizations for several clients/users, redemptions by the right or another client with right/wrong/absent redirect_uri and code_verifier (both methods, method named or left to the server's default), ticks across the 60 s code lifetime, replays, then uses of the resulting tokens",
 		120, 4000, 34, map[string]bool{"pkce": true, "refresh": true},
 		map[string]int{"authorize": 20, "callback": 8, "par": 3, "code": 26, "refresh": 8, "cc": 1, "query": 18, "tick": 8, "bc": 1, "poll": 1, "notify": 1}, 35, scenarioPkceMatrix, scenarioRedirectMatrix, scenarioEmptyCode)
